@@ -258,6 +258,18 @@ def mutate(doc, mut, sel1, sel2):
 
 def base_doc(case):
     src = case["src"]
+    if src["kind"] == "fnconst":
+        # a module whose constant is a function value (a nested HUGR document inside the document)
+        import hugr.tys as htys
+        import hugr.val as hval
+        from hugr.build.dfg import Dfg
+        from hugr.build.function import Module
+
+        body = Dfg(htys.Bool)
+        body.set_outputs(*body.inputs())
+        m = Module()
+        m.add_const(hval.Function(body.hugr))
+        return "SerialHugr", json.loads(m.hugr.to_json())
     if src["kind"] == "hugr":
         r, _ = run_program(src["prog"])
         if r is None:
@@ -439,7 +451,7 @@ def strict_strategy(tier):
 REQUIRES = {"deletes-top-level-version": _deletes_version, "strict-config-inside-unions": lambda case: case.get("where") == "nested"}
 
 SUBS = [
-    Sub("sweep", check_sweep, strategy=sweep_strategy, nontrivial=lambda c: True, classes=lambda c: [c["src"]["kind"]], n_quick=5, n_thorough=40, sample_ok=lambda c: len(json.dumps(c)) < 2500),
+    Sub("sweep", check_sweep, enumerate=lambda tier: iter([{"src": {"kind": "fnconst"}}]), strategy=sweep_strategy, nontrivial=lambda c: True, classes=lambda c: [c["src"]["kind"]], n_quick=5, n_thorough=40, sample_ok=lambda c: len(json.dumps(c)) < 2500),
     Sub("files", check_version, enumerate=enum_files, nontrivial=lambda c: True, exhaustive=True, shardable=False),
     Sub("strict-config", check_strict, strategy=strict_strategy, nontrivial=lambda c: c["where"] == "nested", classes=lambda c: [c["mut"] + ":" + c["where"]], n_quick=60, n_thorough=600,
         sample_ok=lambda c: len(json.dumps(c)) < 2500),
